@@ -757,7 +757,7 @@ def _iter_unused_names(
         # (3) And group the code in the smallest possible sequences that will contain
         #     (directly or recursively) all references (set and get) of that name.
         name_node_sequences = {
-            name: sorted(mentions, key=lambda node: node.lineno)
+            name: sorted(mentions, key=lambda node: (node.lineno, node.col_offset))
             for name, mentions in name_mentions.items()
             if name in names_defined_in_scope
         }
